@@ -19,7 +19,9 @@ def run(tier, seed):
     exps = EXPORTERS_Q if quick else EXPORTERS_T
     runs = [("shapes", 2, "min", ["entity", "generation"]), ("ns", 2, "min", ["entity"]),      # (depth 3 x 420 export sequences cannot be printed in an hour)
             # a document that cannot be unified: exporters that unify first must still leave it alone
-            ("conflict", 1, "min", ["entity"])]
+            ("conflict", 1, "min", ["entity"]),
+            # a bundle named in a namespace only the bundle knows, attached with add_bundle()
+            ("addb", 1 if quick else 2, "min", ["entity"])]
     if not quick:
         runs.append(("shapes", 1, "values", ["entity", "association"]))
     behaviours = []
